@@ -1,6 +1,486 @@
-(* Lemmas about Model/Casing.v (C19). *)
+(* Lemmas about Model/Casing.v (C19), part 1: characters, the scanner as a transducer,
+   shape of the words, snake_case / sanitize_name / safe_snake_case. *)
 From BP Require Import Base.Prelude Model.Casing Proofs.BytesP.
 From BP Require gen.Tables.
 
 Lemma regexes_ok : regexes_as_modelled = true.
 Proof. vm_compute. reflexivity. Qed.
+
+Lemma code_fast_eq s h : code_fast s h = code s h.
+Proof. reflexivity. Qed.
+
+(* ---------------------------------------------------------------- characters *)
+Definition is_upper_b (b : byte) : bool := match classify b with Upper => true | _ => false end.
+
+Lemma byte_eqb_eq a b : byte_eqb a b = true <-> a = b.
+Proof.
+  unfold byte_eqb. rewrite N.eqb_eq. split; [|intros ->; reflexivity].
+  intros H. assert (Some a = Some b) as E by (rewrite <- (Byte.of_to_N a), <- (Byte.of_to_N b), H; reflexivity).
+  injection E; auto.
+Qed.
+
+Lemma str_eqb_eq a : forall b, str_eqb a b = true <-> a = b.
+Proof.
+  induction a as [|x a IH]; intros [|y b]; cbn [str_eqb]; try (split; congruence).
+  rewrite andb_true_iff, byte_eqb_eq, IH. split; [intros [-> ->]; reflexivity|intros H; injection H; auto].
+Qed.
+
+Lemma str_eqb_refl a : str_eqb a a = true.
+Proof. apply str_eqb_eq. reflexivity. Qed.
+
+Lemma is_us_eq b : is_us b = true <-> b = us.
+Proof. split; [destruct b; cbn; intros H; try discriminate H; reflexivity | intros ->; reflexivity]. Qed.
+
+Lemma classify_us : classify us = Sym.
+Proof. reflexivity. Qed.
+
+(* to_lower / to_upper and the classes *)
+Lemma to_lower_class b :
+  match classify b with
+  | Upper => classify (to_lower b) = Lower
+  | _ => to_lower b = b
+  end.
+Proof. destruct b; reflexivity. Qed.
+
+Lemma to_upper_class b :
+  match classify b with
+  | Lower => classify (to_upper b) = Upper
+  | _ => to_upper b = b
+  end.
+Proof. destruct b; reflexivity. Qed.
+
+Lemma to_lower_idem b : to_lower (to_lower b) = to_lower b.
+Proof. destruct b; reflexivity. Qed.
+
+Lemma to_lower_upper b : to_lower (to_upper b) = to_lower b.
+Proof. destruct b; reflexivity. Qed.
+
+Lemma to_upper_lower b : to_upper (to_lower b) = to_upper b.
+Proof. destruct b; reflexivity. Qed.
+
+Lemma to_upper_idem b : to_upper (to_upper b) = to_upper b.
+Proof. destruct b; reflexivity. Qed.
+
+Lemma lower_app a b : lower (a ++ b) = lower a ++ lower b.
+Proof. apply map_app. Qed.
+
+Lemma lower_idem w : lower (lower w) = lower w.
+Proof. unfold lower. rewrite map_map. apply map_ext. intros; apply to_lower_idem. Qed.
+
+Lemma lower_capitalize w : lower (capitalize w) = lower w.
+Proof.
+  destruct w as [|c r]; [reflexivity|]. cbn [capitalize lower map].
+  rewrite to_lower_upper. fold (lower r). fold (lower (lower r)). rewrite lower_idem. reflexivity.
+Qed.
+
+Lemma capitalize_lower w : capitalize (lower w) = capitalize w.
+Proof.
+  destruct w as [|c r]; [reflexivity|]. cbn [capitalize lower map].
+  rewrite to_upper_lower. fold (lower r). fold (lower (lower r)). rewrite lower_idem. reflexivity.
+Qed.
+
+Definition lows (l : list byte) : Prop := forallb is_lower_b l = true.
+Definition digs (l : list byte) : Prop := forallb is_digit_b l = true.
+
+Lemma lows_app a b : lows (a ++ b) <-> lows a /\ lows b.
+Proof. unfold lows. rewrite forallb_app, andb_true_iff. reflexivity. Qed.
+Lemma digs_app a b : digs (a ++ b) <-> digs a /\ digs b.
+Proof. unfold digs. rewrite forallb_app, andb_true_iff. reflexivity. Qed.
+
+Lemma lower_fix_char b : is_lower_b b = true \/ is_digit_b b = true -> to_lower b = b.
+Proof.
+  unfold is_lower_b, is_digit_b. pose proof (to_lower_class b) as H.
+  destruct (classify b); intros [E|E]; try discriminate E; exact H.
+Qed.
+
+Lemma lower_fix_lows l : lows l -> lower l = l.
+Proof.
+  unfold lows. induction l as [|c r IH]; [reflexivity|]. cbn [forallb lower map].
+  rewrite andb_true_iff. intros [Hc Hr]. rewrite lower_fix_char by auto. fold (lower r). rewrite IH by exact Hr. reflexivity.
+Qed.
+Lemma lower_fix_digs l : digs l -> lower l = l.
+Proof.
+  unfold digs. induction l as [|c r IH]; [reflexivity|]. cbn [forallb lower map].
+  rewrite andb_true_iff. intros [Hc Hr]. rewrite lower_fix_char by auto. fold (lower r). rewrite IH by exact Hr. reflexivity.
+Qed.
+
+(* ---------------------------------------------------------------- the scanner as a transducer *)
+Fixpoint run (s : st) (l : list byte) : list (list byte) * st :=
+  match l with
+  | [] => ([], s)
+  | c :: r => let '(o, s') := step s c in let '(o', s'') := run s' r in (o ++ o', s'')
+  end.
+
+Lemma scan_run s : forall st0, scan st0 s = fst (run st0 s) ++ flush (snd (run st0 s)).
+Proof.
+  induction s as [|c r IH]; intros st0; [reflexivity|].
+  cbn [scan run]. destruct (step st0 c) as [o s']. rewrite IH.
+  destruct (run s' r) as [o' s'']. cbn [fst snd]. rewrite app_assoc. reflexivity.
+Qed.
+
+Lemma run_app a : forall st0 b,
+  run st0 (a ++ b) = (fst (run st0 a) ++ fst (run (snd (run st0 a)) b), snd (run (snd (run st0 a)) b)).
+Proof.
+  induction a as [|c r IH]; intros st0 b.
+  - cbn [run app fst snd]. destruct (run st0 b); reflexivity.
+  - cbn [run app]. destruct (step st0 c) as [o s']. rewrite IH.
+    destruct (run s' r) as [o' s'']. cbn [fst snd]. rewrite app_assoc. reflexivity.
+Qed.
+
+Lemma scan_app a st0 b : scan st0 (a ++ b) = fst (run st0 a) ++ scan (snd (run st0 a)) b.
+Proof.
+  rewrite (scan_run (a ++ b)), run_app. cbn [fst snd].
+  rewrite (scan_run b). rewrite app_assoc. reflexivity.
+Qed.
+
+Lemma scan_us_end st0 : scan st0 [us] = flush st0.
+Proof. destruct st0; cbn; rewrite ?app_nil_r; reflexivity. Qed.
+
+Lemma scan_snoc_us st0 a : scan st0 (a ++ [us]) = scan st0 a.
+Proof. rewrite scan_app, scan_us_end, (scan_run a). reflexivity. Qed.
+
+Lemma words_us_cons a : words (us :: a) = words a.
+Proof. reflexivity. Qed.
+
+Lemma words_snoc_us a : words (a ++ [us]) = words a.
+Proof. apply scan_snoc_us. Qed.
+
+(* a state holding exactly the (complete so far) word w, which an upper-case letter or a symbol ends *)
+Definition pend (s : st) (w : list byte) : Prop := s = SL w \/ s = SD w.
+
+Lemma pend_flush s w : pend s w -> flush s = [w].
+Proof. intros [->| ->]; reflexivity. Qed.
+
+Lemma run_SL_lows l : forall w, lows l -> run (SL w) l = ([], SL (w ++ l)).
+Proof.
+  induction l as [|c r IH]; intros w H.
+  - cbn. rewrite app_nil_r. reflexivity.
+  - unfold lows in H. cbn [forallb] in H. apply andb_true_iff in H. destruct H as [Hc Hr].
+    cbn [run step]. unfold is_lower_b in Hc. destruct (classify c); try discriminate Hc.
+    rewrite IH by exact Hr. rewrite <- app_assoc. reflexivity.
+Qed.
+
+Lemma run_SD_digs d : forall w, digs d -> run (SD w) d = ([], SD (w ++ d)).
+Proof.
+  induction d as [|c r IH]; intros w H.
+  - cbn. rewrite app_nil_r. reflexivity.
+  - unfold digs in H. cbn [forallb] in H. apply andb_true_iff in H. destruct H as [Hc Hr].
+    cbn [run step]. unfold is_digit_b in Hc. destruct (classify c); try discriminate Hc.
+    rewrite IH by exact Hr. rewrite <- app_assoc. reflexivity.
+Qed.
+
+(* from inside the lower-case part: lower-case letters, then digits *)
+Lemma run_SL_lows_digs l d w : lows l -> digs d ->
+  exists s', run (SL w) (l ++ d) = ([], s') /\ pend s' (w ++ l ++ d).
+Proof.
+  intros Hl Hd. rewrite run_app, run_SL_lows by exact Hl. cbn [fst snd app].
+  destruct d as [|c r].
+  - exists (SL (w ++ l)). cbn [run fst snd]. rewrite app_nil_r. split; [reflexivity|left; reflexivity].
+  - unfold digs in Hd. cbn [forallb] in Hd. apply andb_true_iff in Hd. destruct Hd as [Hc Hr].
+    cbn [run step]. unfold is_digit_b in Hc. destruct (classify c) eqn:E; try discriminate Hc.
+    rewrite run_SD_digs by exact Hr. cbn [fst snd].
+    exists (SD ((w ++ l) ++ [c] ++ r)). split; [rewrite <- !app_assoc; reflexivity|right].
+    rewrite <- !app_assoc. reflexivity.
+Qed.
+
+(* a lower-cased word: lower-case letters then digits, not empty *)
+Definition lword (w : list byte) : Prop :=
+  exists l d, w = l ++ d /\ lows l /\ digs d /\ w <> [].
+
+Lemma run_S0_lword w : lword w -> exists s', run S0 w = ([], s') /\ pend s' w.
+Proof.
+  intros (l & d & -> & Hl & Hd & Hne).
+  destruct l as [|c l'].
+  - destruct d as [|c d']; [contradiction Hne; reflexivity|].
+    pose proof Hd as Hd0. unfold digs in Hd. cbn [forallb] in Hd. apply andb_true_iff in Hd. destruct Hd as [Hc Hr].
+    cbn [app run step]. unfold is_digit_b in Hc. destruct (classify c) eqn:E; try discriminate Hc.
+    rewrite run_SD_digs by exact Hr. exists (SD ([c] ++ d')). split; [reflexivity|right; reflexivity].
+  - pose proof Hl as Hl0. unfold lows in Hl. cbn [forallb] in Hl. apply andb_true_iff in Hl. destruct Hl as [Hc Hr].
+    cbn [app run step]. unfold is_lower_b in Hc. destruct (classify c) eqn:E; try discriminate Hc.
+    destruct (run_SL_lows_digs l' d [c] Hr Hd) as (s' & R & P). rewrite R. exists s'. split; [reflexivity|exact P].
+Qed.
+
+Lemma step_pend_us s w : pend s w -> step s us = ([w], S0).
+Proof. intros [->| ->]; reflexivity. Qed.
+
+(* scanning "_".join of lower-cased words gives the words back *)
+Lemma scan_join ws : Forall lword ws -> scan S0 (join [us] ws) = ws.
+Proof.
+  induction ws as [|w r IH]; intros H; [reflexivity|].
+  inversion H as [|? ? Hw Hr]; subst.
+  destruct (run_S0_lword w Hw) as (s' & R & P).
+  destruct r as [|w' r'].
+  - cbn [join]. rewrite scan_run, R. cbn [fst snd app]. apply pend_flush. exact P.
+  - change (join [us] (w :: w' :: r')) with (w ++ [us] ++ join [us] (w' :: r')).
+    rewrite scan_app, R. cbn [fst snd app scan]. rewrite (step_pend_us s' w P).
+    cbn [app]. rewrite IH by exact Hr. reflexivity.
+Qed.
+
+(* ---------------------------------------------------------------- shape of the words the scanner emits *)
+Definition uppers (l : list byte) : Prop := forallb is_upper_b l = true.
+
+Lemma lows_lower_uppers l : uppers l -> lows (lower l).
+Proof.
+  unfold uppers, lows. induction l as [|c r IH]; [reflexivity|]. cbn [forallb lower map].
+  rewrite !andb_true_iff. intros [Hc Hr]. split; [|apply IH; exact Hr].
+  unfold is_upper_b in Hc. unfold is_lower_b. pose proof (to_lower_class c) as H.
+  destruct (classify c); try discriminate Hc. rewrite H. reflexivity.
+Qed.
+
+Lemma lword_lows l : lows l -> l <> [] -> lword l.
+Proof. intros H N. exists l, []. rewrite app_nil_r. repeat split; auto. Qed.
+
+Definition stinv (s : st) : Prop :=
+  match s with
+  | S0 => True
+  | SU pre u => uppers pre /\ is_upper_b u = true
+  | SL w => w <> [] /\ lows (lower w)
+  | SD w => lword (lower w)
+  end.
+
+Lemma app_ne_nil_r {A} (a : list A) x : a ++ [x] <> [].
+Proof. destruct a; discriminate. Qed.
+
+Lemma lword_snoc_digit w c : lword w \/ w = [] -> is_digit_b c = true -> lword (w ++ [c]).
+Proof.
+  intros [(l & d & -> & Hl & Hd & _)| ->] Hc.
+  - exists l, (d ++ [c]). rewrite app_assoc. repeat split; auto.
+    + apply digs_app. split; [exact Hd|]. unfold digs. cbn. rewrite Hc. reflexivity.
+    + apply app_ne_nil_r.
+  - exists [], [c]. repeat split; try reflexivity; try discriminate. unfold digs. cbn. rewrite Hc. reflexivity.
+Qed.
+
+Lemma stinv_flush s : stinv s -> Forall lword (map lower (flush s)).
+Proof.
+  destruct s as [|pre u|w|w]; cbn [stinv flush map].
+  - constructor.
+  - intros [Hp Hu]. constructor; [|constructor]. apply lword_lows.
+    + apply lows_lower_uppers. unfold uppers. rewrite forallb_app. cbn. rewrite Hu. unfold uppers in Hp. rewrite Hp. reflexivity.
+    + rewrite lower_app. apply app_ne_nil_r.
+  - intros [Hn Hl]. constructor; [|constructor]. apply lword_lows; [exact Hl|]. destruct w; [contradiction Hn; reflexivity|discriminate].
+  - intros H. constructor; [exact H|constructor].
+Qed.
+
+Lemma stinv_step s c : stinv s ->
+  Forall lword (map lower (fst (step s c))) /\ stinv (snd (step s c)).
+Proof.
+  pose proof (to_lower_class c) as TL.
+  destruct s as [|pre u|w|w]; cbn [stinv]; intros H; unfold step; destruct (classify c) eqn:E; cbn [fst snd map stinv].
+  - split; [constructor|]. split; [reflexivity|]. unfold is_upper_b. rewrite E. reflexivity.
+  - split; [constructor|]. split; [discriminate|]. unfold lows. cbn. rewrite TL. unfold is_lower_b. rewrite E. reflexivity.
+  - split; [constructor|]. cbn. rewrite TL. apply (lword_snoc_digit []); [right; reflexivity|]. unfold is_digit_b. rewrite E. reflexivity.
+  - split; [constructor|exact I].
+  - (* SU, Upper *) destruct H as [Hp Hu]. split; [constructor|]. split.
+    + unfold uppers. rewrite forallb_app. cbn. rewrite Hu. unfold uppers in Hp. rewrite Hp. reflexivity.
+    + unfold is_upper_b. rewrite E. reflexivity.
+  - (* SU, Lower *) destruct H as [Hp Hu]. split.
+    + destruct pre as [|p0 pre']; [constructor|]. constructor; [|constructor].
+      apply lword_lows; [apply lows_lower_uppers; exact Hp|discriminate].
+    + split; [discriminate|]. unfold lows. cbn. rewrite TL.
+      pose proof (to_lower_class u) as TU. unfold is_upper_b in Hu. destruct (classify u); try discriminate Hu.
+      unfold is_lower_b. rewrite TU, E. reflexivity.
+  - (* SU, Digit *) destruct H as [Hp Hu]. split; [constructor|].
+    replace (pre ++ [u; c]) with ((pre ++ [u]) ++ [c]) by (rewrite <- app_assoc; reflexivity).
+    rewrite lower_app. cbn [lower map]. rewrite TL. apply lword_snoc_digit.
+    + left. apply lword_lows; [|rewrite lower_app; apply app_ne_nil_r].
+      apply lows_lower_uppers. unfold uppers. rewrite forallb_app. cbn. rewrite Hu. unfold uppers in Hp. rewrite Hp. reflexivity.
+    + unfold is_digit_b. rewrite E. reflexivity.
+  - (* SU, Sym *) split; [|exact I]. apply (stinv_flush (SU pre u)). exact H.
+  - (* SL, Upper *) split; [apply (stinv_flush (SL w)); exact H|]. split; [reflexivity|]. unfold is_upper_b. rewrite E. reflexivity.
+  - (* SL, Lower *) destruct H as [Hn Hl]. split; [constructor|]. split; [apply app_ne_nil_r|].
+    rewrite lower_app. apply lows_app. split; [exact Hl|]. unfold lows. cbn. rewrite TL. unfold is_lower_b. rewrite E. reflexivity.
+  - (* SL, Digit *) destruct H as [Hn Hl]. split; [constructor|].
+    rewrite lower_app. cbn [lower map]. rewrite TL. apply lword_snoc_digit.
+    + left. apply lword_lows; [exact Hl|]. destruct w; [contradiction Hn; reflexivity|discriminate].
+    + unfold is_digit_b. rewrite E. reflexivity.
+  - (* SL, Sym *) split; [apply (stinv_flush (SL w)); exact H|exact I].
+  - (* SD, Upper *) split; [apply (stinv_flush (SD w)); exact H|]. split; [reflexivity|]. unfold is_upper_b. rewrite E. reflexivity.
+  - (* SD, Lower *) split; [apply (stinv_flush (SD w)); exact H|]. split; [discriminate|].
+    unfold lows. cbn. rewrite TL. unfold is_lower_b. rewrite E. reflexivity.
+  - (* SD, Digit *) split; [constructor|]. rewrite lower_app. cbn [lower map]. rewrite TL. apply lword_snoc_digit.
+    + left. exact H.
+    + unfold is_digit_b. rewrite E. reflexivity.
+  - (* SD, Sym *) split; [apply (stinv_flush (SD w)); exact H|exact I].
+Qed.
+
+Lemma scan_lwords l : forall s, stinv s -> Forall lword (map lower (scan s l)).
+Proof.
+  induction l as [|c r IH]; intros s H.
+  - apply stinv_flush. exact H.
+  - cbn [scan]. destruct (stinv_step s c H) as [Ho Hs]. destruct (step s c) as [o s']. cbn [fst snd] in *.
+    rewrite map_app. apply Forall_app. split; [exact Ho|apply IH; exact Hs].
+Qed.
+
+Lemma words_lwords s : Forall lword (map lower (words s)).
+Proof. apply scan_lwords. exact I. Qed.
+
+(* ---------------------------------------------------------------- snake_case *)
+Lemma map_lower_idem ws : map lower (map lower ws) = map lower ws.
+Proof. rewrite map_map. apply map_ext. intros; apply lower_idem. Qed.
+
+Lemma words_snake s : words (snake_case s) = map lower (words s).
+Proof. unfold snake_case. apply scan_join. apply words_lwords. Qed.
+
+Lemma snake_snake s : snake_case (snake_case s) = snake_case s.
+Proof. unfold snake_case at 1. rewrite words_snake, map_lower_idem. reflexivity. Qed.
+
+Lemma snake_us_cons x : snake_case (us :: x) = snake_case x.
+Proof. reflexivity. Qed.
+Lemma snake_snoc_us x : snake_case (x ++ [us]) = snake_case x.
+Proof. unfold snake_case. rewrite words_snoc_us. reflexivity. Qed.
+
+Lemma snake_sanitize x : snake_case (sanitize_name x) = snake_case x.
+Proof.
+  unfold sanitize_name. destruct (is_keyword x); [apply snake_snoc_us|].
+  destruct (negb (is_identifier x)); [apply snake_us_cons|reflexivity].
+Qed.
+
+Lemma safe_snake_idem s : safe_snake_case (safe_snake_case s) = safe_snake_case s.
+Proof. unfold safe_snake_case. rewrite snake_sanitize, snake_snake. reflexivity. Qed.
+
+(* characters of snake_case's result: lower-case letters, digits, "_" *)
+Definition snake_char (b : byte) : bool := is_lower_b b || is_digit_b b || is_us b.
+
+Lemma lword_chars w : lword w -> forallb snake_char w = true.
+Proof.
+  intros (l & d & -> & Hl & Hd & _). rewrite forallb_app. apply andb_true_iff. split.
+  - unfold lows in Hl. rewrite forallb_forall in *. intros x Hx. unfold snake_char. rewrite (Hl x Hx). reflexivity.
+  - unfold digs in Hd. rewrite forallb_forall in *. intros x Hx. unfold snake_char. rewrite (Hd x Hx), orb_true_r. reflexivity.
+Qed.
+
+Lemma join_chars ws : Forall lword ws -> forallb snake_char (join [us] ws) = true.
+Proof.
+  induction ws as [|w r IH]; intros H; [reflexivity|]. inversion H as [|? ? Hw Hr]; subst.
+  destruct r as [|w' r'].
+  - cbn [join]. apply lword_chars. exact Hw.
+  - change (join [us] (w :: w' :: r')) with (w ++ [us] ++ join [us] (w' :: r')).
+    rewrite !forallb_app, (lword_chars w Hw), (IH Hr). reflexivity.
+Qed.
+
+Lemma snake_chars s : forallb snake_char (snake_case s) = true.
+Proof. apply join_chars, words_lwords. Qed.
+
+Lemma snake_char_ident b : snake_char b = true -> ident_char b = true.
+Proof.
+  unfold snake_char, ident_char, is_lower_b, is_digit_b. destruct (classify b) eqn:E; cbn; auto.
+Qed.
+
+Lemma snake_ident_chars s : ident_chars (snake_case s) = true.
+Proof.
+  unfold ident_chars. pose proof (snake_chars s) as H. rewrite forallb_forall in *.
+  intros x Hx. apply snake_char_ident, H, Hx.
+Qed.
+
+(* snake_case's result never ends with "_" (so .rstrip("_") does nothing to it) *)
+Lemma rstrip_us_last x c : is_us c = false -> rstrip_us (x ++ [c]) = x ++ [c].
+Proof.
+  intros H. unfold rstrip_us. rewrite rev_app_distr. cbn [rev app lstrip_us]. rewrite H.
+  change (c :: rev x) with ([c] ++ rev x). rewrite rev_app_distr, rev_involutive. reflexivity.
+Qed.
+
+Lemma rstrip_us_no_us x : forallb (fun c => negb (is_us c)) x = true -> rstrip_us x = x.
+Proof.
+  destruct (rev x) as [|c r] eqn:E.
+  - intros _. apply (f_equal (@rev byte)) in E. rewrite rev_involutive in E. subst x. reflexivity.
+  - apply (f_equal (@rev byte)) in E. rewrite rev_involutive in E. cbn [rev] in E. subst x.
+    rewrite forallb_app. cbn [forallb]. rewrite !andb_true_iff. intros (_ & H & _).
+    apply rstrip_us_last. destruct (is_us c); [discriminate H|reflexivity].
+Qed.
+
+Lemma lword_no_us w : lword w -> forallb (fun c => negb (is_us c)) w = true.
+Proof.
+  intros (l & d & -> & Hl & Hd & _). rewrite forallb_app. apply andb_true_iff. split.
+  - unfold lows in Hl. rewrite forallb_forall in *. intros x Hx. specialize (Hl x Hx). destruct x; try reflexivity; discriminate Hl.
+  - unfold digs in Hd. rewrite forallb_forall in *. intros x Hx. specialize (Hd x Hx). destruct x; try reflexivity; discriminate Hd.
+Qed.
+
+Lemma lstrip_us_length q : (length (lstrip_us q) <= length q)%nat.
+Proof. induction q as [|a q IH]; cbn [lstrip_us]; [lia|]. destruct (is_us a); cbn [length]; lia. Qed.
+
+Lemma rstrip_us_app a t : rstrip_us t = t -> t <> [] -> rstrip_us (a ++ t) = a ++ t.
+Proof.
+  unfold rstrip_us. intros IH N.
+  assert (lstrip_us (rev t) = rev t) as K.
+  { apply (f_equal (@rev byte)) in IH. rewrite !rev_involutive in IH. exact IH. }
+  rewrite rev_app_distr. destruct (rev t) as [|c q] eqn:E.
+  - exfalso. apply (f_equal (@rev byte)) in E. rewrite rev_involutive in E. contradiction.
+  - cbn [app lstrip_us] in *. destruct (is_us c) eqn:U.
+    + exfalso. pose proof (lstrip_us_length q) as L. rewrite K in L. cbn [length] in L. lia.
+    + change (c :: q ++ rev a) with ((c :: q) ++ rev a). rewrite <- E, <- rev_app_distr, rev_involutive. reflexivity.
+Qed.
+
+Lemma lword_ne w : lword w -> w <> [].
+Proof. intros (l & d & _ & _ & _ & N). exact N. Qed.
+
+Lemma join_ne_nil ws : Forall lword ws -> ws <> [] -> join [us] ws <> [].
+Proof.
+  destruct ws as [|w r]; intros H N; [contradiction N; reflexivity|].
+  inversion H as [|? ? Hw Hr]; subst. apply lword_ne in Hw.
+  destruct r; cbn [join]; [exact Hw|]. destruct w; [contradiction Hw; reflexivity|discriminate].
+Qed.
+
+Lemma join_last ws : Forall lword ws -> rstrip_us (join [us] ws) = join [us] ws.
+Proof.
+  induction ws as [|w r IH]; intros H; [reflexivity|]. inversion H as [|? ? Hw Hr]; subst.
+  destruct r as [|w' r'].
+  - cbn [join]. apply rstrip_us_no_us, lword_no_us, Hw.
+  - change (join [us] (w :: w' :: r')) with (w ++ [us] ++ join [us] (w' :: r')). rewrite app_assoc.
+    apply rstrip_us_app; [apply IH; exact Hr|apply join_ne_nil; [exact Hr|discriminate]].
+Qed.
+
+Lemma snake_key_snake s : rstrip_us (snake_case s) = snake_case s.
+Proof. apply join_last, words_lwords. Qed.
+
+(* ---------------------------------------------------------------- sanitize_name *)
+Lemma existsb_str_eqb_in x l : existsb (str_eqb x) l = true <-> In x l.
+Proof.
+  rewrite existsb_exists. split.
+  - intros (k & I & E). apply str_eqb_eq in E. subst. exact I.
+  - intros I. exists x. split; [exact I|apply str_eqb_refl].
+Qed.
+
+Lemma is_keyword_in x : is_keyword x = true <-> In x Tables.kwlist.
+Proof. apply existsb_str_eqb_in. Qed.
+
+(* facts about the regenerated keyword table (finite; re-checked against the live list on every build) *)
+Lemma kw_are_identifiers : forallb is_identifier Tables.kwlist = true.
+Proof. vm_compute. reflexivity. Qed.
+Lemma kw_plus_us_not_kw : forallb (fun k => negb (is_keyword (k ++ [us]))) Tables.kwlist = true.
+Proof. vm_compute. reflexivity. Qed.
+Lemma kw_no_leading_us : forallb (fun k => match k with c :: _ => negb (is_us c) | [] => false end) Tables.kwlist = true.
+Proof. vm_compute. reflexivity. Qed.
+
+Lemma is_identifier_snoc_us x : is_identifier x = true -> is_identifier (x ++ [us]) = true.
+Proof.
+  destruct x as [|c r]; [discriminate|]. cbn [is_identifier app]. rewrite !andb_true_iff, forallb_app.
+  intros [Hc Hr]. split; [exact Hc|]. rewrite Hr. reflexivity.
+Qed.
+
+Lemma is_identifier_us_cons x : ident_chars x = true -> is_identifier (us :: x) = true.
+Proof. intros H. cbn [is_identifier]. exact H. Qed.
+
+Lemma sanitize_ok x : ident_chars x = true ->
+  is_identifier (sanitize_name x) = true /\ is_keyword (sanitize_name x) = false.
+Proof.
+  intros H. unfold sanitize_name. destruct (is_keyword x) eqn:K.
+  - apply is_keyword_in in K. split.
+    + apply is_identifier_snoc_us. pose proof kw_are_identifiers as T. rewrite forallb_forall in T. apply T, K.
+    + pose proof kw_plus_us_not_kw as T. rewrite forallb_forall in T. specialize (T x K).
+      destruct (is_keyword (x ++ [us])); [discriminate T|reflexivity].
+  - destruct (is_identifier x) eqn:I; cbn [negb].
+    + split; [exact I|exact K].
+    + split; [apply is_identifier_us_cons, H|].
+      destruct (is_keyword (us :: x)) eqn:K'; [|reflexivity]. apply is_keyword_in in K'.
+      pose proof kw_no_leading_us as T. rewrite forallb_forall in T. specialize (T _ K'). discriminate T.
+Qed.
+
+Lemma safe_snake_ok s :
+  is_identifier (safe_snake_case s) = true /\ is_keyword (safe_snake_case s) = false.
+Proof. apply sanitize_ok, snake_ident_chars. Qed.
+
+(* the snake_case key of a generated field name always maps back *)
+Lemma snake_key_back s :
+  safe_snake_case (snake_key (safe_snake_case s)) = safe_snake_case s.
+Proof.
+  unfold snake_key, safe_snake_case. rewrite snake_sanitize, snake_snake, snake_key_snake, snake_snake. reflexivity.
+Qed.
